@@ -47,6 +47,7 @@ type Contract struct {
 	AssumePost []Clause
 	Lets     []LetDef
 	Ensures  []Clause
+	TrustEnsures []Clause // postconditions assumed at call sites but not proved of the body
 	Fails    []Clause
 	NoFail   bool // "nofail": function never panics except env kinds (equivalent to fails false)
 	Env      []string
@@ -651,6 +652,12 @@ func (cs *ContractSet) parseLines(lines []string, file, pkgPath, schemaDir strin
 			var c Clause
 			c, err = mkClause(tags, rest)
 			cur.Ensures = append(cur.Ensures, c)
+		case "trustensures":
+			// a postcondition callers may rely on but that is NOT proved of the body (listed as an assumption); the
+			// function's other obligations (safety, frames, loop invariants, the proved ensures) are generated as usual
+			var c Clause
+			c, err = mkClause(tags, rest)
+			cur.TrustEnsures = append(cur.TrustEnsures, c)
 		case "bind":
 			eq := strings.Index(rest, "=")
 			if eq < 0 {
